@@ -7,7 +7,6 @@ import (
 	"os"
 	"reflect"
 	"strings"
-	"sync"
 	"testing"
 	"time"
 
@@ -305,75 +304,6 @@ func TestUseCaseSnapshots(t *testing.T) {
 		world.Record(world.Hash("usecase", seq), len(snaps) >= 2, "usecase")
 		if world.WantSample() {
 			world.Sample(map[string]any{"kind": "usecase", "ops": seq})
-		}
-	}))
-}
-
-// TestSnapshotRace (race build): readers encode and walk a snapshot while an updater applies
-// in-place-style updates (selector, identifier-less, delete elements) to the same function.
-// The race detector's reports are collected and classified by the driver.
-func TestSnapshotRace(t *testing.T) {
-	fs := funcs()
-	rapid.Check(t, world.Prop(func(t *rapid.T) {
-		f := fs[rapid.IntRange(0, len(fs)-1).Draw(t, "function")]
-		e := newEnv(&f)
-		defer e.w.Teardown()
-		o := gen.Opt{Dense: true}
-		init := refmodel.Update{Items: listgen.Items(t, &f, 4, o, "init")}
-		if len(init.Items) == 0 {
-			init.Items = []reflect.Value{gen.Item(t, &f, make([]uint64, len(f.KeyFields)), o, "init0")}
-		}
-		e.srv.SetData(f.Fn, refmodel.Payload(&f, init.Items))
-		state := refmodel.Fold(&f, nil, init)
-		var ups []refmodel.Update
-		for i := 0; i < 6; i++ {
-			shape := rapid.SampledFrom([]string{listgen.PartialNoIDs, listgen.PartialSelector, listgen.DeleteElements, listgen.PartialIDs}).Draw(t, fmt.Sprintf("shape%d", i))
-			ok := false
-			for _, s := range listgen.ShapesFor(&f) {
-				if s == shape {
-					ok = true
-				}
-			}
-			if !ok {
-				shape = listgen.PartialIDs
-			}
-			ups = append(ups, listgen.Update(t, &f, state, shape, o, fmt.Sprintf("u%d", i)))
-		}
-		snap := e.srv.DataCopy(f.Fn)
-		text := world.JSON(snap)
-		var wg sync.WaitGroup
-		start := make(chan struct{})
-		var changed string
-		var mu sync.Mutex
-		for r := 0; r < 2; r++ {
-			wg.Add(1)
-			go func() {
-				defer wg.Done()
-				<-start
-				for i := 0; i < 40; i++ {
-					if now := world.JSON(snap); now != text {
-						mu.Lock()
-						changed = now
-						mu.Unlock()
-					}
-				}
-			}()
-		}
-		wg.Add(1)
-		go func() {
-			defer wg.Done()
-			<-start
-			for _, u := range ups {
-				fp, fd := listgen.Filters(&f, u)
-				_ = e.srv.UpdateData(f.Fn, refmodel.Payload(&f, u.Items), fp, fd)
-			}
-		}()
-		close(start)
-		wg.Wait()
-		e.w.Sync()
-		world.Record(world.Hash("race", f.Fn, len(ups)), true, "race/"+string(f.Fn))
-		if changed != "" {
-			world.Fail(t, "C11/snapshot-changed/concurrent", "a snapshot changed while updates were processed concurrently\n taken: %s\n seen:  %s", text, changed)
 		}
 	}))
 }
